@@ -156,6 +156,21 @@ func init() {
 				}
 			}
 		}
+		// per id (since /repo 3413323): the end of a connection is reported before the next connection of the id is announced
+		openID := map[string]string{}
+		for j, e := range log {
+			switch e.kind {
+			case "new":
+				if prev, ok := openID[e.id]; ok && prev != e.ch {
+					viol("id-new-before-disc", fmt.Sprintf("id %s: connection %s was announced (callback #%d) before the end of connection %s of the same id was reported", e.id, e.ch, j, prev), map[string]interface{}{"round": i, "seed": seed, "callbacks": trace})
+				}
+				openID[e.id] = e.ch
+			case "disc":
+				if openID[e.id] == e.ch {
+					delete(openID, e.id)
+				}
+			}
+		}
 		for ch, st := range state {
 			if st == 1 {
 				viol("disc-missing", fmt.Sprintf("connection %s: a new-client callback without its disconnected callback after every client has gone", ch), map[string]interface{}{"round": i, "seed": seed, "callbacks": trace})
